@@ -197,13 +197,13 @@ def run(res, tier, lean, proof_breaks=(), build_log=""):
     thorough = tier == "thorough"
     res.cov["rule"] = ("API call sequences over 3 watches (2 paths, one also recursive) x 2 handlers on the real BaseObserver, "
                        "with an emitter construction or start failure injectable at every schedule()/start(); all sequences "
-                       "up to length 2 (quick) / 3 (thorough) over a reduced call alphabet exhaustively + random sequences up "
+                       "up to length 3 over a reduced call alphabet exhaustively + random sequences up "
                        "to length 12; after every call the emitters (watch, alive) are compared, at the end which handlers "
                        "receive a marker event per watch; non-trivial = at least one successful schedule")
     small = [c for c in all_calls() if (c[0] != "schedule" or c[2] in (0, 3)) and (c[0] not in ("add", "remove") or c[2] == 0)
              and (c[0] not in ("unschedule", "start") or c[1] in (None, 0, 3))]
     seqs = []
-    depth = 3 if thorough else 2
+    depth = 3
     for n in range(1, depth + 1):
         for seq in itertools.product(small, repeat=n):
             if valid(seq):
